@@ -19,6 +19,7 @@ THEOREMS = [
     "C10_feature_vector_roundtrip",
     "C10_optmsg_roundtrip", "C10_optmsg_fixpoint", "C10_gen_optmsgs_ok",
     "C10_failure_update_roundtrip", "C10_gen_fdescs_ok", "C10_gen_coverage",
+    "C10_scids_empty_grows",
 ]
 MODULE = "LV.Wire.Props"
 TARGETS = ["theories/Wire/Props.vo", "theories/Wire/Exec.vo", "theories/Wire/Examples.vo",
@@ -203,7 +204,7 @@ def failure_model_rows(wrows, codes):
 # and its model comparison is gone, so run() searches that type directly (directed_search).
 EXPECTED_GENERATED = {1, 2, 16, 17, 18, 19, 32, 33, 34, 35, 36, 38, 39, 40, 41, 115, 128, 130, 131,
                       132, 133, 134, 135, 136, 256, 257, 258, 259, 262, 263, 265, 513, 777,
-                      111, 113, 117}
+                      111, 113, 117, 261}
 EXPECTED_FAILURES = {17, 18, 19, 21, 23, 4103, 4107, 4108, 4109, 4110, 4116, 8194, 16392, 16393,
                      16394, 16399, 16400, 16406, 24578, 24579, 32769, 49156, 49157, 49158, 49176}
 
@@ -280,7 +281,8 @@ def ordered_fields(desc, fmap):
                 continue
         f = fmap.get(name)
         if f is None:
-            if codec in ("FRest", "FTlvRest", "FVar16", "FFeat", "FAddrs") or codec.startswith("FVar16Max") \
+            if codec in ("FRest", "FTlvRest", "FVar16", "FFeat", "FAddrs", "FScids") \
+                    or codec.startswith("FVar16Max") \
                     or codec.startswith("FArr16"):
                 f = ["b", ""]
             else:
@@ -314,6 +316,20 @@ def curve_points(b):
     return sorted(pts)
 
 
+def scid_offset(desc):
+    """byte offset (message type included) of the FScids field of a layout; None without one"""
+    if not any(c == "FScids" for _, c, _ in desc["fields"]):
+        return None
+    off = 2
+    for name, codec, cond in desc["fields"]:
+        if codec == "FScids":
+            return off
+        m = re.fullmatch(r"F(?:Bytes|U)(\d+)", codec)
+        if not m or cond is not None:
+            raise ValueError("FScids behind a variable-width field: offset unknown")
+        off += int(m.group(1))
+
+
 def prepare_model_rows(wrows, gen):
     """Attach ordered field values / oracle table to the rows of modelled types."""
     out = []
@@ -323,6 +339,16 @@ def prepare_model_rows(wrows, gen):
         d = gen.get(r["t"])
         if d is None:
             continue
+        scid_at = scid_offset(d)
+        if scid_at is not None:
+            # plain short-channel-id lists only: zlib bodies (encoding byte 1) and values whose
+            # ids Encode would sort first are left to the Go-side predicates
+            if r["k"] == "write":
+                continue
+            raw = bytes.fromhex(r.get("b") or "")
+            if len(raw) > scid_at + 2 and int.from_bytes(raw[scid_at:scid_at + 2], "big") > 0 \
+                    and raw[scid_at + 2] == 1:
+                continue
         if r["k"] == "write":
             if d["kind"] != "plain" or "fmap" not in r:
                 continue
@@ -663,10 +689,10 @@ def run(ctx):
     crow += [r for r in mrows
              if len(r.get("b", "") or r.get("out", "")) <= 2 * coq_cap(r)]
     frows = failure_model_rows(wrows, load_gen_failures())
-    if not ctx.thorough and len(frows) > 600:
+    if not ctx.thorough and len(frows) > 1200:
         # quick tier: an evenly spread sample (all rows are predicate-checked above)
-        step = len(frows) / 600.0
-        frows = [frows[int(i * step)] for i in range(600)]
+        step = len(frows) / 1200.0
+        frows = [frows[int(i * step)] for i in range(1200)]
     crow += frows
     terms = [t_case(r) for r in crow]
     stage["predicates"] = round(time.time() - t0, 1)
